@@ -12,7 +12,7 @@ DEFECTS = ["tc-special-set", "tc-dialog-no-close-p", "tc-endbr-keeps-frameset-ok
            "tc-command-void-in-head", "tc-chars-token-granularity", "tc-textarea-stays-in-body",
            "tc-cell-caption-ws-base", "tc-intable-other-drops-reprocess", "tc-frameset-pop-name-only",
            "tc-adoption-inner-loop-3", "tc-anyotherend-ignores-namespace", "tc-isindex-expansion", "tc-no-rb-rtc", "tc-table-pre-lf-kept",
-           "tc-fragment-table-in-table-dropped", "tc-fragment-tokenizer-state"]
+           "tc-fragment-table-in-table-dropped", "tc-fragment-tokenizer-state", "tc-popuntil-ignores-namespace", "tc-foreign-endtag-p-br", "tc-svg-no-fedropshadow", "tc-no-template", "tc-reset-cell-context"]
 TOK_DEFECTS = ["tok-commentstart-nul-stays", "tok-commentstartdash-nul-stays", "tok-cdata-nul-replaced"]
 
 
@@ -83,6 +83,9 @@ WITNESS = [  # inputs that exhibit each named deviation (document mode unless a 
     ("<command>x", None), ("<frameset>x y</frameset>", None), ("<p><b></p><textarea>x", None),
     ("<table><td><p><b></p> y", None), ("<table><button><button>x", None), ("<frameset></frameset><noframes>", None),
     ("<svg><html><desc><frameset>", None), ("<b><i><u><s><em><div>x</b></div></em></s></u>z", None), ("<svg><title><span></title>x", None), ("<ruby><rb>a<rb>b<rtc>c<rt>d", None), ("<table><table>x", "div"), ("<b>x</b>", "noscript"), ("<!--<script></script>x", "script"), ("<isindex action=a prompt=b name=c>", None), ("<table><pre>\nx", None), ("x y", "colgroup"),
+    ("<table><tr><td><svg><td><foreignObject><span></td>Foo", None), ("<p><b></p><textarea>\nx", None),
+    ("<svg></p><foo>", None), ("<math></br><foo>", None), ("<svg><fedropshadow>", None),
+    ("<template>x</template>y", None), ("<table><template><td>x</template>y", None), ("<select><td>x", "td"),
 ]
 
 
@@ -299,7 +302,7 @@ def run(ctx):
         plan.append((theme, "doc", False, 3))
     if q:
         plan = [(t, "doc", False, 3 if t in ("formatting", "table", "doctype") else 2) for t, _, _, _ in plan]
-    plan += [("frameset", "doc", False, 4 if q else 5)]
+    plan += [("frameset", "doc", False, 4 if q else 5), ("template", "doc", False, 2 if q else 4), ("template", "common", False, 2 if q else 3)]
     plan += [("head", "doc", True, 2 if q else 4), ("table", "tableish", False, 2 if q else 3), ("blocks", "common", False, 2 if q else 3),
              ("foreign", "common", False, 2 if q else 3), ("head", "rawish", False, 2 if q else 3), ("select", "tableish", False, 2 if q else 3)]
     if not q:
@@ -312,8 +315,9 @@ def run(ctx):
                 "builders; traces: real result trees on repo test strings / soup / optional-tag and whitespace generators in document "
                 "mode and all 26 fragment contexts, re-derived by TLC. non-trivial = distinct (input, container)")
     # the INTENDED design (no deviation enabled) must satisfy the structural theorems as well
-    for theme in ("formatting", "table", "head", "blocks", "select", "foreign", "frameset"):
-        r0 = ctx.tlc("MC_Tree", cfg(theme, "common" if theme in ("table", "select") else "doc", False, 2, False, []), "mc-intended-" + theme)
+    for theme in ("formatting", "table", "head", "blocks", "select", "foreign", "frameset", "template"):
+        r0 = ctx.tlc("MC_Tree", cfg(theme, "common" if theme in ("table", "select") else "doc", False, 3 if theme == "template" else 2, False, []),
+                     "mc-intended-" + theme)
         if r0.violated:
             ctx.violation("theorem %s fails on the INTENDED tree-construction specification [%s]" % (r0.violated, theme), {"tlc": r0.stdout_path})
     for theme, cont, scr, n in plan:
